@@ -42,24 +42,24 @@ theorem toSigned_ofSigned64 (v : Int) (lo : -9223372036854775808 ≤ v) (hi : v 
   · rw [if_pos h]; simp only [ofSigned, Nat.reducePow, Nat.reduceSub] at h ⊢; omega
   · rw [if_neg h]; simp only [ofSigned, Nat.reducePow, Nat.reduceSub] at h ⊢; omega
 
-theorem readVal_num (n : Num) (f : Nat) (rest : Bytes) (ht : n.typed = true) (hr : n.refused = false) :
-    readVal (f + 1) n.tag (encNum n ++ rest) = some (.num n.canon, rest) := by
+theorem readBVal_num (n : Num) (f : Nat) (rest : Bytes) (ht : n.typed = true) (hr : n.refused = false) :
+    readBVal (f + 1) n.tag (encNum n ++ rest) = some (.num n.canon, rest) := by
   cases n with
   | f64 bits =>
     simp only [Num.typed, decide_eq_true_eq] at ht
-    simp [readVal, Num.tag, encNum, split8_natLE, Num.canon, Nat.mod_eq_of_lt ht]
+    simp [readBVal, Num.tag, encNum, split8_natLE, Num.canon, Nat.mod_eq_of_lt ht]
   | int k v =>
     simp only [Num.typed, Bool.and_eq_true] at ht
     have h1 := of_decide_eq_true ht.1
     have h2 := of_decide_eq_true ht.2
     have h64 : toSigned 64 (ofSigned 64 v % 18446744073709551616) = v → k.wide = true →
-        readVal (f + 1) (Num.int k v).tag (encNum (.int k v) ++ rest) = some (.num (Num.int k v).canon, rest) := by
+        readBVal (f + 1) (Num.int k v).tag (encNum (.int k v) ++ rest) = some (.num (Num.int k v).canon, rest) := by
       intro h hw
-      simp [readVal, Num.tag, encNum, hw, split8_natLE, Num.canon, h]
+      simp [readBVal, Num.tag, encNum, hw, split8_natLE, Num.canon, h]
     have h32 : toSigned 32 (ofSigned 32 v % 4294967296) = v → k.wide = false →
-        readVal (f + 1) (Num.int k v).tag (encNum (.int k v) ++ rest) = some (.num (Num.int k v).canon, rest) := by
+        readBVal (f + 1) (Num.int k v).tag (encNum (.int k v) ++ rest) = some (.num (Num.int k v).canon, rest) := by
       intro h hw
-      simp [readVal, Num.tag, encNum, hw, split4_natLE, Num.canon, h]
+      simp [readBVal, Num.tag, encNum, hw, split4_natLE, Num.canon, h]
     cases k <;> simp only [IntKind.lo, IntKind.hi] at h1 h2
     · exact h32 (toSigned_ofSigned32 v (by omega) (by omega)) rfl
     · exact h32 (toSigned_ofSigned32 v (by omega) (by omega)) rfl
@@ -80,25 +80,25 @@ theorem Num.tag_ne_zero (n : Num) : n.tag ≠ 0 := by
 theorem V.tag_ne_zero (v : V) : v.tag ≠ 0 := by
   cases v <;> simp [V.tag, Num.tag_ne_zero]
 
-theorem readVal_str (s : Bytes) (f : Nat) (rest : Bytes) (hu : validUtf8 s = true) (hs : s.length + 1 < 2 ^ 31) :
-    readVal (f + 1) 0x02 (natLE 4 (s.length + 1) ++ s ++ [0] ++ rest) = some (.str s, rest) := by
+theorem readBVal_str (s : Bytes) (f : Nat) (rest : Bytes) (hu : validUtf8 s = true) (hs : s.length + 1 < 2 ^ 31) :
+    readBVal (f + 1) 0x02 (natLE 4 (s.length + 1) ++ s ++ [0] ++ rest) = some (.str s, rest) := by
   have hlen : (s.length + 1) % 4294967296 = s.length + 1 := Nat.mod_eq_of_lt (by omega)
   have hd : List.drop s.length (s ++ 0 :: rest) = 0 :: rest := List.drop_left
   have ht : List.take s.length (s ++ 0 :: rest) = s := List.take_left
   have hn : ¬ (2147483648 ≤ s.length + 1) := by omega
-  simp [readVal, List.append_assoc, split4_natLE, hlen, hd, ht, hu, hn]
+  simp [readBVal, List.append_assoc, split4_natLE, hlen, hd, ht, hu, hn]
 
 mutual
-  theorem readVal_enc : (v : V) → (f : Nat) → (rest : Bytes) → v.cost ≤ f → V.firstErr v = none → V.typed v = true →
-      V.small v = true → readVal f v.tag (encV v ++ rest) = some (V.canon v, rest)
+  theorem readBVal_enc : (v : V) → (f : Nat) → (rest : Bytes) → v.cost ≤ f → V.firstErr v = none → V.typed v = true →
+      V.small v = true → readBVal f v.tag (encV v ++ rest) = some (V.canon v, rest)
     | .null, f, rest, hc, _, _, _ => by
       cases f with
       | zero => simp [V.cost] at hc
-      | succ f => simp [readVal, V.tag, encV, V.canon]
+      | succ f => simp [readBVal, V.tag, encV, V.canon]
     | .bool b, f, rest, hc, _, _, _ => by
       cases f with
       | zero => simp [V.cost] at hc
-      | succ f => cases b <;> simp [readVal, V.tag, encV, V.canon]
+      | succ f => cases b <;> simp [readBVal, V.tag, encV, V.canon]
     | .num n, f, rest, hc, he, ht, _ => by
       cases f with
       | zero => simp [V.cost] at hc
@@ -109,14 +109,14 @@ mutual
           · rfl
           · simp [h] at he
         simp only [V.typed] at ht
-        simpa [V.tag, encV, V.canon] using readVal_num n f rest ht hr
+        simpa [V.tag, encV, V.canon] using readBVal_num n f rest ht hr
     | .str s, f, rest, hc, _, ht, hs => by
       cases f with
       | zero => simp [V.cost] at hc
       | succ f =>
         simp only [V.typed] at ht
         simp only [V.small, decide_eq_true_eq] at hs
-        simpa [V.tag, encV, V.canon] using readVal_str s f rest ht hs
+        simpa [V.tag, encV, V.canon] using readBVal_str s f rest ht hs
     | .arr items, f, rest, hc, he, ht, hs => by
       cases f with
       | zero => simp [V.cost] at hc
@@ -125,10 +125,10 @@ mutual
         simp only [V.firstErr] at he
         simp only [V.typed] at ht
         simp only [V.small, Bool.and_eq_true, decide_eq_true_eq] at hs
-        have ih := readItems_enc items 0 f rest (by omega) he ht hs.2
+        have ih := readBItems_enc items 0 f rest (by omega) he ht hs.2
         have hlen : ((encItems 0 items).length + 5) % 4294967296 = (encItems 0 items).length + 5 :=
           Nat.mod_eq_of_lt (by omega)
-        simp [readVal, V.tag, encV, V.canon, List.append_assoc, split4_natLE, hlen, ih]
+        simp [readBVal, V.tag, encV, V.canon, List.append_assoc, split4_natLE, hlen, ih]
         omega
     | .doc ms, f, rest, hc, he, ht, hs => by
       cases f with
@@ -138,17 +138,17 @@ mutual
         simp only [V.firstErr] at he
         simp only [V.typed] at ht
         simp only [V.small, Bool.and_eq_true, decide_eq_true_eq] at hs
-        have ih := readElems_enc ms f rest (by omega) he ht hs.2
+        have ih := readBElems_enc ms f rest (by omega) he ht hs.2
         have hlen : ((encMembers ms).length + 5) % 4294967296 = (encMembers ms).length + 5 :=
           Nat.mod_eq_of_lt (by omega)
-        simp [readVal, V.tag, encV, V.canon, List.append_assoc, split4_natLE, hlen, ih]
+        simp [readBVal, V.tag, encV, V.canon, List.append_assoc, split4_natLE, hlen, ih]
         omega
-  theorem readItems_enc : (l : VList) → (i f : Nat) → (rest : Bytes) → l.cost ≤ f → VList.firstErr l = none →
-      VList.typed l = true → VList.small l = true → readItems f (encItems i l ++ 0 :: rest) = some (VList.canon l, rest)
+  theorem readBItems_enc : (l : VList) → (i f : Nat) → (rest : Bytes) → l.cost ≤ f → VList.firstErr l = none →
+      VList.typed l = true → VList.small l = true → readBItems f (encItems i l ++ 0 :: rest) = some (VList.canon l, rest)
     | .nil, i, f, rest, hc, _, _, _ => by
       cases f with
       | zero => simp [VList.cost] at hc
-      | succ f => simp [readItems, encItems, VList.canon]
+      | succ f => simp [readBItems, encItems, VList.canon]
     | .cons h t, i, f, rest, hc, he, ht, hs => by
       cases f with
       | zero => simp [VList.cost] at hc
@@ -164,18 +164,18 @@ mutual
         have het : VList.firstErr t = none := by
           simp only [VList.firstErr, heh] at he
           exact he
-        have ih1 := readVal_enc h f (encItems (i + 1) t ++ 0 :: rest) (by omega) heh ht.1 hs.1
-        have ih2 := readItems_enc t (i + 1) f rest (by omega) het ht.2 hs.2
+        have ih1 := readBVal_enc h f (encItems (i + 1) t ++ 0 :: rest) (by omega) heh ht.1 hs.1
+        have ih2 := readBItems_enc t (i + 1) f rest (by omega) het ht.2 hs.2
         have hk := readCStr_append (natDec i) (encV h ++ (encItems (i + 1) t ++ 0 :: rest)) (natDec_text i).1
         have htag : h.tag ≠ 0 := V.tag_ne_zero h
-        simp [readItems, encItems, VList.canon, List.append_assoc, htag, hk, (natDec_text i).2.1, ih1, ih2]
-  theorem readElems_enc : (ms : VMembers) → (f : Nat) → (rest : Bytes) → ms.cost ≤ f → VMembers.firstErr ms = none →
+        simp [readBItems, encItems, VList.canon, List.append_assoc, htag, hk, (natDec_text i).2.1, ih1, ih2]
+  theorem readBElems_enc : (ms : VMembers) → (f : Nat) → (rest : Bytes) → ms.cost ≤ f → VMembers.firstErr ms = none →
       VMembers.typed ms = true → VMembers.small ms = true →
-      readElems f (encMembers ms ++ 0 :: rest) = some (VMembers.canon ms, rest)
+      readBElems f (encMembers ms ++ 0 :: rest) = some (VMembers.canon ms, rest)
     | .nil, f, rest, hc, _, _, _ => by
       cases f with
       | zero => simp [VMembers.cost] at hc
-      | succ f => simp [readElems, encMembers, VMembers.canon]
+      | succ f => simp [readBElems, encMembers, VMembers.canon]
     | .cons k v t, f, rest, hc, he, ht, hs => by
       cases f with
       | zero => simp [VMembers.cost] at hc
@@ -194,11 +194,51 @@ mutual
         have het : VMembers.firstErr t = none := by
           simp only [VMembers.firstErr, hk0, ↓reduceIte, hev] at he
           exact he
-        have ih1 := readVal_enc v f (encMembers t ++ 0 :: rest) (by omega) hev ht.1.2 hs.1
-        have ih2 := readElems_enc t f rest (by omega) het ht.2 hs.2
+        have ih1 := readBVal_enc v f (encMembers t ++ 0 :: rest) (by omega) hev ht.1.2 hs.1
+        have ih2 := readBElems_enc t f rest (by omega) het ht.2 hs.2
         have hk := readCStr_append k (encV v ++ (encMembers t ++ 0 :: rest)) hk0
         have htag : v.tag ≠ 0 := V.tag_ne_zero v
-        simp [readElems, encMembers, VMembers.canon, List.append_assoc, htag, hk, ht.1.1, ih1, ih2]
+        simp [readBElems, encMembers, VMembers.canon, List.append_assoc, htag, hk, ht.1.1, ih1, ih2]
 end
+
+mutual
+  theorem V.cost_le : (v : V) → v.cost ≤ (encV v).length + 1
+    | .null => by simp [V.cost]
+    | .bool _ => by simp [V.cost]
+    | .num _ => by simp [V.cost]
+    | .str _ => by simp [V.cost]
+    | .arr items => by
+      have := VList.cost_le items 0
+      simp only [V.cost, encV, List.length_append, natLE_length, List.length_singleton]
+      omega
+    | .doc ms => by
+      have := VMembers.cost_le ms
+      simp only [V.cost, encV, List.length_append, natLE_length, List.length_singleton]
+      omega
+  theorem VList.cost_le : (l : VList) → (i : Nat) → l.cost ≤ (encItems i l).length + 1
+    | .nil, _ => by simp [VList.cost]
+    | .cons h t, i => by
+      have := V.cost_le h
+      have := VList.cost_le t (i + 1)
+      have := (natDec_text i).2.2
+      have : 0 < (natDec i).length := List.length_pos_iff.mpr this
+      simp only [VList.cost, encItems, List.length_cons, List.length_append, List.length_singleton]
+      omega
+  theorem VMembers.cost_le : (ms : VMembers) → ms.cost ≤ (encMembers ms).length + 1
+    | .nil => by simp [VMembers.cost]
+    | .cons k v t => by
+      have := V.cost_le v
+      have := VMembers.cost_le t
+      simp only [VMembers.cost, encMembers, List.length_cons, List.length_append, List.length_singleton]
+      omega
+end
+
+/-- the reader gives back what the serialiser was given (as BSON types), for every document it accepts -/
+theorem bsonDecode_enc (ms : VMembers) (he : VMembers.firstErr ms = none) (ht : VMembers.typed ms = true)
+    (hs : V.small (.doc ms) = true) : bsonDecode (encV (.doc ms)) = some (.doc (VMembers.canon ms)) := by
+  have h := readBVal_enc (.doc ms) ((encV (.doc ms)).length + 1) [] (V.cost_le _) (by simpa [V.firstErr] using he)
+    (by simpa [V.typed] using ht) hs
+  simp only [List.append_nil, V.tag] at h
+  simp [bsonDecode, h, V.canon]
 
 end Gd.Cli
